@@ -234,6 +234,24 @@ func (dc *dataChunk) beginGCWriting(srcChunk int) (err error) {
 	return
 }
 
+// truncateRewritten cuts a file that is being rewritten in place down to what has been
+// written so far; the gc writer stays open and keeps appending at that offset.
+func (dc *dataChunk) truncateRewritten() {
+	if !dc.rewriting || dc.gcWriter == nil || dc.writingHead >= dc.size {
+		return
+	}
+	if err := dc.gcWriter.wbuf.Flush(); err != nil {
+		return
+	}
+	if utils.VerifOn {
+		utils.Verif("fs.pre", "truncate", dc.path)
+		defer utils.Verif("fs.post", "truncate", dc.path)
+	}
+	// dc.size is left alone: endGCWriting still removes the file if nothing is written to it
+	logger.Infof("truncate rewritten %s %d to %d", dc.path, dc.size, dc.writingHead)
+	os.Truncate(dc.path, int64(dc.writingHead))
+}
+
 func (dc *dataChunk) endGCWriting() (err error) {
 	logger.Infof("endGCWriting chunk %d rewrite %v size %d wsize%d ", dc.chunkid, dc.rewriting, dc.size, dc.writingHead)
 	if dc.gcWriter != nil {
